@@ -35,6 +35,11 @@ class Module:
         self.parents = {}
         self._index()
 
+    def text(self, func, literal=()):
+        """statement / expression presence modulo renaming of locals and temporaries (sa/pat.py Text)"""
+        from . import pat
+        return pat.Text(self.tree, func, literal)
+
     def _index(self):
         for node in ast.walk(self.tree):
             for ch in ast.iter_child_nodes(node):
